@@ -423,6 +423,8 @@ def r7_loop_hints(body, hints, item, log):
         if "kind" in h and h["kind"] != kw:
             raise ExtractError("%s: loop #%d is `%s`, unit expects `%s`" % (item, o, kw, h["kind"]))
         ins = "\n"
+        if h.get("invariant_except_break"):
+            ins += "    invariant_except_break " + h["invariant_except_break"].strip().rstrip(",") + ",\n"
         if h.get("invariant"):
             ins += "    invariant " + h["invariant"].strip().rstrip(",") + ",\n"
         if h.get("ensures"):
